@@ -63,13 +63,14 @@ func isChar(d os.FileInfo) bool {
 }
 
 func (fid *ufsFid) stat() *Error {
-	var err error
-
-	fid.st, err = os.Lstat(fid.path)
+	// keep the last good value on failure: requests pipelined on one fid
+	// may be looking at it
+	st, err := os.Lstat(fid.path)
 	if err != nil {
 		return toError(err)
 	}
 
+	fid.st = st
 	return nil
 }
 
